@@ -123,7 +123,7 @@ def setup(job, vals=None):
     thr = Fraction(job["thr"])
     dps = []
     if sym:
-        fixed = job.get("fixed", {})
+        fixed = job.get("fixed") or {}
         alpha = Lin(V(Fraction(fixed["alpha"]))) if "alpha" in fixed else Lin(V.var("alpha"))
         for i in range(n):
             dp = sym_dp(i, D, G, fixed=fixed)
@@ -233,7 +233,7 @@ def replay(case):
     """Exact float transition matrix on the unpatched code; confirmed if max|pi K - pi| > 1e-9 (or a row is not stochastic)."""
     from phyclone.utils.dev import clear_proposal_dist_caches
     job = case["job"]
-    vals = dict(job.get("fixed", {}))
+    vals = dict(job.get("fixed") or {})
     vals.update(case.get("values", {}))
     S = setup(job, vals=vals)
     gam = {k: math.exp(S["td"].log_p_one(t)) for k, t in S["states"]}
